@@ -448,6 +448,7 @@ fn stock_shell_aborts(ctx: &Ctx) {
                 }
                 _ => input = Some(script.clone().into_bytes()),
             }
+            crate::util::start_with_default_signals(&mut command);
             if ignore_at_start {
                 use std::os::unix::process::CommandExt;
                 // SAFETY: signal(2) is async-signal-safe; nothing else happens between fork and exec
